@@ -64,7 +64,7 @@ theorem invF_mx {s s' : St} {t : Tid} {p' : Pc} (h : InvF s) (hpc : s'.pc = upd 
 theorem invF_step {s s' : St} {t : Tid} (hL : InvL s) (hC : InvC s) (h : InvF s) (hs : Step s t s') : InvF s' := by
   cases hs with
   | stutter => exact h
-  | wr v hr => exact invF_congr h rfl rfl rfl rfl rfl
+  | wr v hr _ => exact invF_congr h rfl rfl rfl rfl rfl
   | move p p' hp hc =>
     subst hp
     exact invF_move h rfl (by intro k hk; rw [hc.atFlag]; exact hk) (by rw [hc.between]; exact id) rfl
@@ -217,7 +217,7 @@ theorem invO_step {s s' : St} {t : Tid} (hL : InvL s) (hC : InvC s) (hF : InvF s
     intro p' hn k hk; rw [hn] at hk; cases hk
   cases hs with
   | stutter => exact h
-  | wr v hr => exact invO_congr h rfl rfl rfl rfl rfl
+  | wr v hr _ => exact invO_congr h rfl rfl rfl rfl rfl
   | move p p' hp hc =>
     subst hp
     exact invO_move h rfl (by intro k hk; rw [hc.promise] at hk; exact Or.inl hk) rfl rfl rfl rfl
@@ -533,7 +533,7 @@ theorem invU_step {s s' : St} {t : Tid} (hL : InvL s) (hC : InvC s) (h : InvU s)
     intro p' hn k hk; rw [hn] at hk; cases hk
   cases hs with
   | stutter => exact h
-  | wr v hr => exact invU_congr h rfl rfl rfl
+  | wr v hr _ => exact invU_congr h rfl rfl rfl
   | move p p' hp hc =>
     subst hp
     exact invU_move h rfl (by intro k hk; rw [hc.running] at hk; exact hk) (by intro k hk; rw [hc.running]; exact hk) rfl rfl
